@@ -4,8 +4,9 @@ use crate::common_assets::ASSETS;
 use crate::ctx::Ctx;
 use crate::oracles::*;
 use serde_json::{json, Value};
-use vlib::par::{decode, par_fold, product};
+use vlib::par::{decode, product};
 use vlib::refhdr::{assemble, RawEntry, RawHeader, RawLead, Val};
+use crate::sweep::{run_sweep, Sweep};
 use vlib::report::{Acc, SubReport};
 
 /// all strings of length ≤ 4 over {0x00, 'a', 0xFF}: 121 stores
@@ -30,11 +31,6 @@ fn minimal_sig() -> RawHeader {
 
 const PAYLOADS: [&[u8]; 3] = [b"", b"\x07", b"payload"];
 
-struct Shape {
-    entries: Vec<RawEntry>,
-    store: Vec<u8>,
-}
-
 /// Decode an entry from its axis digits; None if the offset digit exceeds the store.
 fn entry(tags: &[u32], d_tag: u64, d_ty: u64, d_off: u64, d_cnt: u64, offs: &[i64], counts: &[u32], store_len: usize) -> Option<RawEntry> {
     let off = offs[d_off as usize];
@@ -50,7 +46,9 @@ fn entry(tags: &[u32], d_tag: u64, d_ty: u64, d_off: u64, d_cnt: u64, offs: &[i6
     })
 }
 
-fn run_headers(name: &str, which_sig: bool, n_entries: usize, tags: &[u32], offs: &[i64], counts: &[u32], store_list: &[Vec<u8>], payloads: &[&[u8]]) -> SubReport {
+fn run_headers(name: &str, which_sig: bool, n_entries: usize, tags: &[u32], offs: &[i64], counts: &[u32], store_list: &[Vec<u8>], payloads: &[&'static [u8]]) -> Sweep {
+    let (tags, offs, counts, store_list, payloads) = (tags.to_vec(), offs.to_vec(), counts.to_vec(), store_list.to_vec(), payloads.to_vec());
+    let name = name.to_string();
     let per = [tags.len() as u64, 10, offs.len() as u64, counts.len() as u64];
     let mut rad = vec![];
     for _ in 0..n_entries {
@@ -60,7 +58,21 @@ fn run_headers(name: &str, which_sig: bool, n_entries: usize, tags: &[u32], offs
     rad.push(payloads.len() as u64);
     let n = product(&rad);
     let lead = RawLead::new("n");
-    let acc = merge(par_fold(n, Acc::new, |i, acc| {
+    let rule = format!(
+            "{} header with {} index entr{}: per entry tag ∈ {:?} × type 0..9 × offset ∈ {:?} (−1 = store length; digits beyond the store skipped) × count ∈ {:?}; {} stores over {{00,'a',FF}}; {} payloads; other header minimal. Oracle: W(P(x)) = x up to reserved/padding bytes, P(W(P(x))) = P(x), second write identical, metadata-only API consistent. non-trivial = accepted by the parser",
+            if which_sig { "signature" } else { "main" },
+            n_entries,
+            if n_entries == 1 { "y" } else { "ies" },
+            tags,
+            offs,
+            counts,
+            store_list.len(),
+            payloads.len()
+        );
+    let nm = name.clone();
+    Sweep::new(&nm, rule, n, move |i, acc| {
+        let name = name.as_str();
+        let (tags, offs, counts) = (&tags[..], &offs[..], &counts[..]);
         let d = decode(i, &rad);
         let store = &store_list[d[4 * n_entries] as usize];
         let payload = payloads[d[4 * n_entries + 1] as usize];
@@ -80,31 +92,15 @@ fn run_headers(name: &str, which_sig: bool, n_entries: usize, tags: &[u32], offs
             oracle_offsets(name, &p, i, &case, acc);
             acc.sample(i.wrapping_mul(0x9e3779b97f4a7c15), case);
         }
-    }));
-    SubReport::new(
-        name,
-        "A",
-        &format!(
-            "{} header with {} index entr{}: per entry tag ∈ {:?} × type 0..9 × offset ∈ {:?} (−1 = store length; digits beyond the store skipped) × count ∈ {:?}; {} stores over {{00,'a',FF}}; {} payloads; other header minimal. Oracle: W(P(x)) = x up to reserved/padding bytes, P(W(P(x))) = P(x), second write identical, metadata-only API consistent. non-trivial = accepted by the parser",
-            if which_sig { "signature" } else { "main" },
-            n_entries,
-            if n_entries == 1 { "y" } else { "ies" },
-            tags,
-            offs,
-            counts,
-            store_list.len(),
-            payloads.len()
-        ),
-        acc,
-    )
+    })
 }
 
-fn run_intro() -> SubReport {
+fn run_intro() -> Sweep {
     // every intro byte wrong once (and in combination), reserved bytes non-zero, for both headers
     let rad = [2u64, 2, 2, 2, 3, 2, 2, 3];
     let n = product(&rad);
     let lead = RawLead::new("n");
-    let acc = merge(par_fold(n, Acc::new, |i, acc| {
+    Sweep::new("intro", "both header intros: each magic byte ∈ {correct, +1}, version ∈ {1,0,2}, reserved bytes zero / non-zero, non-zero signature padding, 3 payloads (all 576 combinations)".into(), n, move |i, acc| {
         let d = decode(i, &rad);
         acc.evals += 1;
         let mut h = RawHeader::layout(&[(1000, Val::str("n")), (1003, Val::Int32(vec![5]))]);
@@ -128,16 +124,15 @@ fn run_intro() -> SubReport {
             oracle_offsets("intro", &p, i, &case, acc);
             acc.sample(i, case);
         }
-    }));
-    SubReport::new("intro", "A", "both header intros: each magic byte ∈ {correct, +1}, version ∈ {1,0,2}, reserved bytes zero / non-zero, non-zero signature padding, 3 payloads (all 576 combinations)", acc)
+    })
 }
 
-fn run_lead() -> SubReport {
+fn run_lead() -> Sweep {
     let vals16 = [0u16, 1, 0xFFFF];
     let vals8 = [3u8, 0, 0xFF];
     let rad = [3u64, 3, 3, 3, 3, 3, 4, 2, 6];
     let n = product(&rad);
-    let acc = merge(par_fold(n, Acc::new, |i, acc| {
+    Sweep::new("lead", "lead: major/minor ∈ {3,0,FF}, type/arch/os/sigtype ∈ {0,1,FFFF}, 4 name shapes (no NUL, non-UTF-8, bytes after NUL), reserved zero/non-zero, each magic byte wrong once / all zero".into(), n, move |i, acc| {
         let d = decode(i, &rad);
         acc.evals += 1;
         let mut l = RawLead::new("n");
@@ -174,15 +169,14 @@ fn run_lead() -> SubReport {
             oracle_offsets("lead", &p, i, &case, acc);
             acc.sample(i.wrapping_mul(0x9e3779b97f4a7c15), case);
         }
-    }));
-    SubReport::new("lead", "A", "lead: major/minor ∈ {3,0,FF}, type/arch/os/sigtype ∈ {0,1,FFFF}, 4 name shapes (no NUL, non-UTF-8, bytes after NUL), reserved zero/non-zero, each magic byte wrong once / all zero", acc)
+    })
 }
 
-fn run_sigpad() -> SubReport {
+fn run_sigpad() -> Sweep {
     let rad = [17u64, 3, 3, 2];
     let n = product(&rad);
     let lead = RawLead::new("n");
-    let acc = merge(par_fold(n, Acc::new, |i, acc| {
+    Sweep::new("sigpad", "signature store length 0..=16 (all paddings mod 8) × padding bytes {00, AA, 01} × 3 payloads × reserved zero/non-zero".into(), n, move |i, acc| {
         let d = decode(i, &rad);
         acc.evals += 1;
         let len = d[0] as usize;
@@ -200,8 +194,7 @@ fn run_sigpad() -> SubReport {
             oracle_offsets("sigpad", &p, i, &case, acc);
             acc.sample(i, case);
         }
-    }));
-    SubReport::new("sigpad", "A", "signature store length 0..=16 (all paddings mod 8) × padding bytes {00, AA, 01} × 3 payloads × reserved zero/non-zero", acc)
+    })
 }
 
 pub fn run_assets(ctx: &Ctx, sub: &str) -> SubReport {
@@ -231,27 +224,36 @@ pub fn run_assets(ctx: &Ctx, sub: &str) -> SubReport {
     SubReport::new(sub, "A", "the six rpmbuild-produced asset packages, whole and with the payload truncated at three offsets", acc)
 }
 
-pub fn run(ctx: &Ctx) -> i32 {
+pub fn sweeps(ctx: &Ctx) -> Vec<Sweep> {
     let st = stores();
     let repr: Vec<Vec<u8>> = [0usize, 1, 2, 5, 7, 40, 80, 120, 13, 100].iter().map(|i| st[*i].clone()).collect();
     let tags6 = [63u32, 100, 1000, 1004, 1000, 99_999];
     let tags3 = [100u32, 1000, 99_999];
     let offs = [0i64, 1, 2, 3, -1];
     let counts = [0u32, 1, 2, 3];
-    let mut subs = vec![];
+    let mut v = vec![];
     for sig in [false, true] {
         let nm = if sig { "sig" } else { "hdr" };
-        subs.push(run_headers(&format!("{}1", nm), sig, 1, &tags6, &offs, &counts, &st, &PAYLOADS));
+        v.push(run_headers(&format!("{}1", nm), sig, 1, &tags6, &offs, &counts, &st, &PAYLOADS));
         if ctx.quick() {
-            subs.push(run_headers(&format!("{}2", nm), sig, 2, &[1000, 1000], &offs, &counts, &repr, &PAYLOADS[..1]));
+            v.push(run_headers(&format!("{}2", nm), sig, 2, &[1000, 1000], &offs, &counts, &repr, &PAYLOADS[..1]));
         } else {
-            subs.push(run_headers(&format!("{}2", nm), sig, 2, &tags3, &offs, &counts, &st, &PAYLOADS[..1]));
-            subs.push(run_headers(&format!("{}3", nm), sig, 3, &[1000], &[0, 1, -1], &[0, 2], &st, &PAYLOADS[..1]));
+            v.push(run_headers(&format!("{}2", nm), sig, 2, &tags3, &offs, &counts, &st, &PAYLOADS[..1]));
+            v.push(run_headers(&format!("{}3", nm), sig, 3, &[1000], &[0, 1, -1], &[0, 2], &st, &PAYLOADS[..1]));
         }
     }
-    subs.push(run_intro());
-    subs.push(run_lead());
-    subs.push(run_sigpad());
+    v.push(run_intro());
+    v.push(run_lead());
+    v.push(run_sigpad());
+    v
+}
+
+pub fn run(ctx: &Ctx) -> i32 {
+    let mut subs = vec![];
+    for s in sweeps(ctx) {
+        let (sub, _events) = run_sweep(ctx, &s); // crashes while parsing are C04's business; they are counted in the histogram
+        subs.push(sub);
+    }
     subs.push(run_assets(ctx, "assets"));
     subs.push(crate::corpus::run_shared(ctx, "corpus", &["C01", "C16"]));
     for s in &subs {
@@ -265,7 +267,7 @@ pub fn run(ctx: &Ctx) -> i32 {
         &[
             "the reference codec (vlib::refhdr) lays packages out as documented in rpm's file-format manual",
             "headers with more than 3 hand-enumerated entries are covered only by the corpus and the assets",
-            "a panic while parsing counts as 'not accepted' here and is reported by C04",
+            "a panic, abort or hang while parsing counts as 'not accepted' here and is reported by C04",
         ],
         vec![],
     )
